@@ -102,7 +102,9 @@ var messages = []string{"", "bad value", "值不对", "值 bad", "x", "字", "a=
 	// formatting-verb look-alikes
 	"100% sure", "不能超过100%", "%d items", "%", "%s%v%[1]d", "50%!",
 	// messages that mention a label word: the explanation starts after the clause's own (first) label
-	"see explain: in the docs", "格式见 说明: 第三章", "请看 explain: 文档", "read the explain:", "x explain: y 说明: z"}
+	"see explain: in the docs", "格式见 说明: 第三章", "请看 explain: 文档", "read the explain:", "x explain: y 说明: z",
+	// the message separator inside the message
+	"size must be 1|2|3", "模式只能是 r|w", "a|b", "|", "trailing|"}
 
 func withMsg(rule, msg string) string {
 	if msg == "" {
@@ -238,6 +240,57 @@ func run(c *runner.Ctx) {
 			c.Sample(func() interface{} {
 				return map[string]interface{}{"rules": rules, "value": fmt.Sprint(rc.val.Interface())}
 			})
+		}
+	}
+
+	// (1a') required with a message on a key that is missing altogether (Map) / a parameter that is not in the query (Url)
+	c.Space("required-with-message/missing-key")
+	for _, m := range messages {
+		if m == "" || !c.Take() {
+			continue
+		}
+		forms := []struct {
+			name string
+			path string
+			f    func() error
+		}{
+			{"Map(empty map)", "map[k]", func() error { return valid.Map(map[string]string{}, valid.RM{"k": "required|" + m}) }},
+			{"Map(other keys)", "map[k]", func() error { return valid.Map(map[string]int{"a": 1}, valid.RM{"k": "required|" + m}) }},
+			{"Map(slice of maps)", "[0]map[k]", func() error { return valid.Map([]map[string]string{{"a": "x"}}, valid.RM{"k": "required|" + m}) }},
+			{"Url(other parameters)", "k", func() error { return valid.Url("http://h/p?a=1&z=2", valid.RM{"k": "required|" + m}) }},
+			{"Url(no query)", "k", func() error { return valid.Url("http://h/p", valid.RM{"k": "required|" + m}) }},
+		}
+		wantLabel := "explain:"
+		if zh.MatchString(m) {
+			wantLabel = "说明:"
+		}
+		for _, fm := range forms {
+			var err error
+			pan, pmsg, site := runner.Guard(func() { err = fm.f() })
+			c.Done(true, 1)
+			det := map[string]interface{}{"form": fm.name, "message": m}
+			if pan {
+				det["panic"] = pmsg
+				c.Violation("panic@"+site, det)
+				continue
+			}
+			if err == nil {
+				c.Violation("missing-key/no-clause", det)
+				continue
+			}
+			det["error"] = err.Error()
+			cls := errparse.Parse(err.Error())
+			if len(cls) != 1 || cls[0].Text != m || cls[0].Label != wantLabel {
+				det["expected_label"], det["expected_text"] = wantLabel, m
+				kind := "message-not-verbatim"
+				if len(cls) == 1 && cls[0].Text == m {
+					kind = "wrong-label"
+				}
+				c.Violation("missing-key/"+kind+"/"+strings.Fields(fm.name)[0][:3], det)
+				continue
+			}
+			checkExtractor(c, err.Error(), expectedExplain(cls), "missing-key", det)
+			c.Outcome("ok:missing-key")
 		}
 	}
 
